@@ -1,7 +1,9 @@
 """C06 Oblivious transfer delivers exactly the chosen label."""
 import hashlib
+import json
 import os
 import re
+import shutil
 import sys
 
 import vlib
@@ -42,7 +44,78 @@ THEOREMS = [
     # RSA OT over Nat/Int arithmetic (Model/RsaOt.lean)
     "Mpc.C06_rsa_key_recovered",
     "Mpc.C06_rsa_delivers",
+    # RSA OT as the code computes it: integers over Z, byte strings, every randomness (Model/RsaOtBytes.lean)
+    "Mpc.C06_rsa_powmod",
+    "Mpc.C06_rsa_exec_is_spec",
+    "Mpc.C06_rsa_received_integer",
+    "Mpc.C06_rsa_pkcs1_roundtrip",
+    "Mpc.C06_rsa_delivers_bytes",
+    "Mpc.C06_rsa_session_delivers",
+    "Mpc.C06_rsa_modn_sender_negative",
+    "Mpc.C06_rsa_modn_sender_witness",
 ]
+
+RSA_K_CLASSES = ["honest", "0", "1", "2", "N-1", "N-2", "half", "sum=N-1", "sum=N", "sum=N+1", "top8", "top12", "top16",
+                 "top20", "reject-N", "reject-max"]
+RSA_X_CLASSES = ["honest", "0/max", "max/0", "N-1/N+1", "N/1", "1/N", "v=0", "v=1", "v=N-1", "xb>=N", "equal", "kc=0",
+                 "kc=1", "kc=N-1", "kc-sum=N-1", "kc-sum=N", "kc-sum=N+1", "kc-top8", "kc-top16", "xc>=N"]
+
+
+def rsa_variant_reach(ctx, ops):
+    """Are the generated RSA transfers able to tell the code's integer sums from a sender that reduces mod N
+    (Model/RsaOtBytes.lean wireModN, C06_rsa_modn_sender_negative)?  The same op lines are run on both models."""
+    ops2 = ops + ".modn"
+    with open(ops, errors="replace") as fi, open(ops2, "w") as fo:
+        for line in fi:
+            fo.write(line.replace("c06 rsa ", "c06 rsamodn ", 1))
+    outp, rc = ctx.run_drv(ops2)
+    batches = differs = total = 0
+    for line in open(outp, errors="replace"):
+        w = line.strip().split(";")
+        total += len(w)
+        d = w.count("differs")
+        differs += d
+        batches += 1 if d else 0
+    c = ctx.coverage
+    c["rsa_transfers_compared_with_mod_N_sender_variant"] = c.get("rsa_transfers_compared_with_mod_N_sender_variant", 0) + total
+    c["rsa_transfers_on_which_a_mod_N_sender_differs"] = c.get("rsa_transfers_on_which_a_mod_N_sender_differs", 0) + differs
+    ctx.oblige("the RSA transfers generated in this run include inputs on which integer sums and sums reduced mod N differ "
+               "(pad(m_c) + k_c >= N for the chosen or the other message), in honest and in steered batches",
+               rc == 0 and batches >= 4, "batches with such a transfer: %d, transfers: %d of %d" % (batches, differs, total))
+
+
+def replay_exact(ctx):
+    """`bin/check C06 --replay F`: when F holds an RSA case (the op line of a batch: key, messages, choices and the
+    randomness of both parties), run exactly that op line again on the real code with the recorded key injected and
+    compare it with the model, before the seeded run."""
+    if "--replay" not in sys.argv:
+        return
+    try:
+        rp = sys.argv[sys.argv.index("--replay") + 1]
+        rp = rp if os.path.isabs(rp) else os.path.join(vlib.VERIF, rp)
+        f = json.load(open(rp)).get("failure") or {}
+    except Exception:
+        return
+    if not (f.get("replay") or {}).get("mode") == "rsa":
+        return
+    cp = os.path.join(vlib.VERIF, ".work", "C06-replay-%d.json" % os.getpid())   # finish() rewrites the replay file
+    shutil.copy(rp, cp)
+    ops, out, meta = ctx.run_hx("rsa", 1, extra_args=["-extra", "replay=" + cp], tag="-replay")
+    os.unlink(cp)
+    try:
+        got = open(out).readline().strip()
+    except OSError:
+        got = "(no output)"
+    print("replayed the recorded RSA op line (%s, transfer %s of case %s, k class %s, %s-bit key injected); real code:\n  %s" % (
+        f.get("sig"), f.get("transfer"), f.get("case"), f.get("k_class"), f.get("bits"), got[:1200]))
+    again = meta.get("oracle_fails") or []
+    for g in again:
+        print("  FAILS AGAIN: %s transfer %s: %s (%s)" % (g.get("sig"), g.get("transfer"), g.get("what"), g.get("sum_vs_N")))
+        g["found_by"] = "exact replay of " + os.path.basename(rp)
+    if not again:
+        print("  the recorded case passes on this tree")
+    ctx.absorb_meta(meta, prefix="replay_")
+    ctx.correspond("replayed RSA op line: v, both transfer messages and the receiver's outcome = Lean model", ops, out)
 
 
 def distinct_ops(ctx, ops):
@@ -83,7 +156,18 @@ def run(ctx):
     n_cob = 18 if quick else 90
     seeds = [ctx.seed] if quick else [ctx.seed, ctx.seed + 1000, ctx.seed + 2000]
     if ctx.build_hx():
+        replay_exact(ctx)
         for s in seeds:
+            # RSA OT with the random sources of both parties under control (rsa.go): first, so that its (few, exact)
+            # failures are the headline
+            ops, out, meta = ctx.run_hx("rsa", 1, seed=s)
+            ctx.absorb_meta(meta)
+            ctx.correspond("RSA OT (ot.RSA over a transport and the Sender/Receiver single-transfer API), keys of usual and "
+                           "odd widths, honest and steered randomness of both parties: v, both transfer messages and the "
+                           "receiver's outcome of every transfer byte-exact (seed %d)" % s, ops, out)
+            distinct_ops(ctx, ops)
+            if s == seeds[0]:
+                rsa_variant_reach(ctx, ops)
             ops, out, meta = ctx.run_hx("iknp", n_iknp, seed=s)
             ctx.absorb_meta(meta)
             ctx.correspond("IKNP histories with named result buffers: u-matrix chunks, label vectors, packed words "
@@ -113,6 +197,10 @@ def run(ctx):
                 "oracle_cobytes_batches",
                 "oracle_co_batches", "oracle_cohelpers_batches", "oracle_coxfer_batches", "oracle_rsa_batches",
                 "oracle_rsaxfer_batches", "oracle_cot_over_co_batches", "oracle_rot_over_co_batches"] + \
+               ["rsa_k_" + k for k in RSA_K_CLASSES] + ["rsa_x_" + k for k in RSA_X_CLASSES] + \
+               ["rsa_api_proto", "rsa_api_xfer", "rsa_key_nat", "rsa_key_inj-low", "rsa_key_inj-high", "rsa_bits_1025",
+                "rsa_bits_1031", "rsa_bits_2047", "rsa_bits_1024", "rsa_bits_2048", "rsa_bits_not_multiple_of_8",
+                "rsa_chosen_sum_ge_N", "rsa_rejected_candidates_1", "rsa_too_long_planned", "rsa_e_3", "rsa_e_65537"] + \
                ["cot_kind_%s_mal_%s_shared_%s" % (k, m, sh) for k in "cr" for m in ("true", "false")
                 for sh in ("true", "false")] + \
                ["%s_%s" % (p, c) for p in ("iknp_label_buf", "iknp_bits_rbuf", "iknp_bits_sbuf", "cot_buf")
@@ -123,8 +211,10 @@ def run(ctx):
                 "co_buf_kept", "co_buf_ones", "co_buf_random", "cot_over_co_buf_random", "rot_over_co_buf_random"]
         missing = [k for k in need if not c.get(k)]
         ctx.oblige("generator reached every size class (n mod 8/64/128/512 in {0,+1,-1}, 5 chunks), all three IKNP "
-                   "forms, every COT/ROT mode x sharing combination, all five implementations, and every class of "
-                   "caller-provided result buffer (fresh, kept from the previous call, sub-slice, ones, byte fill, random)",
+                   "forms, every COT/ROT mode x sharing combination, all five implementations, every class of "
+                   "caller-provided result buffer (fresh, kept from the previous call, sub-slice, ones, byte fill, random), and "
+                   "for RSA every steering class of k and of x0/x1, both APIs, generated and injected keys, widths that are "
+                   "not a multiple of 8, transfers with pad(m_b) + k >= N, rejected rand.Int candidates",
                    not missing, "not reached: %s" % missing)
         # the ReceiveBits defect fixed by 564d319 must NOT reproduce: the inputs on which the old code
         # failed (partial last word, Delta.Bit(0) = 1, a set choice bit in the tail) are exercised and
@@ -172,14 +262,28 @@ def run(ctx):
         "incl. a rejected crypto/rand.Int candidate, receiver scalar = sender scalar (doubling, infinity as mask point), "
         "scalar 0 with choice 1, and the rejected encodings of the point at infinity (scalar 0 with choice 0, sender "
         "scalar 0). distinct = distinct op lines "
-        "(each is a full tape + batch list). proto mode (oracle only): CO protocol, CO helpers on P-256/224/384/521, "
+        "(each is a full tape + batch list). rsa mode (rsa.go; op `rsa`, model Model/RsaOtBytes.lean): ot.RSA over a transport and "
+        "the ot.Sender / ot.Receiver single-transfer API on keys the code generates (1024, 1025, 1031, 2047, 2048 bits; "
+        "thorough also 1033, 1536, 2049) and on injected keys (modulus just above 2^(bits-1) / just below 2^bits / anywhere, "
+        "e in {3, 17, 65537}); both parties read their randomness from tapes the harness wrote: HONEST batches (uniform bytes, "
+        "rand.Int's rejected candidates included; 448 transfers in quick, ~4000 per seed in thorough, most at widths that are not a "
+        "multiple of 8 where pad(m) + k >= N has probability 2^-7.5) and STEERED batches (one transfer per class: k in {0, 1, 2, "
+        "N-1, N-2, N/2, N - pad(m_b) + {-1, 0, 1}, top 2^-8 / 2^-12 / 2^-16 / 2^-20 of [0, N), a rejected candidate N or "
+        "2^bitlen - 1 first}; x_b, x_c in {0, 1, N-1, N, N+1, 2^(8 size) - 1, v = 0 / 1 / N-1, x >= N, x_b = x_c, and x_c solved "
+        "for k_c in {0, 1, N-1, N - pad(m_c) + {-1, 0, 1}, top 2^-8 / 2^-16}}, then random pairs of classes; single-transfer "
+        "API also message lengths 0, 1, messageSize - 11 and messageSize - 10 (rejected), zero bytes inside). The op line "
+        "carries key, messages, choices, x0, x1, k of every transfer; the model must give v, both transfer messages and the "
+        "receiver's outcome byte for byte. A failing transfer is re-run alone (transfers are independent) and that "
+        "single-transfer op line is the replay (`--replay` injects the recorded key). proto mode (oracle only): CO protocol, CO helpers on P-256/224/384/521, "
         "CO and RSA single-transfer APIs, RSA protocol (1024/1536/2048-bit keys), COT/ROT over real CO; thorough tier records a probe of COT over an RSA base (role inversion, evidence "
         "only).")
     ctx.assumptions += [
         "the block cipher / PRG is an arbitrary function in every theorem; Lean AES only matters for the byte-exact comparison",
         "IKNP theorems are relative to BaseOK (the 128 base OTs delivered the keys selected by Delta); base OT correctness is the CO / RSA part of this property",
         "Chou-Orlandi: the theorems are in an abstract commutative group and exclude the point-at-infinity encodings (probability ~2^-256 on P-256); that P-256 (crypto/elliptic, and its Lean re-implementation Model/P256.lean executed for the byte-exact comparison) is such a group is trusted, not proved",
-        "RSA: crypto/rsa keys are trusted to satisfy (k^e)^d = k mod N; math/big Exp with a negative base is modelled as Euclidean (non-negative) reduction; PKCS#1 block type 1 pad/unpad round trip is a hypothesis of the theorem",
+        "RSA: crypto/rsa keys are trusted to satisfy (k^e)^d = k mod N (hypothesis hkey of the RSA theorems; injected keys are built by the harness from two probable primes); math/big Exp with a negative base is modelled as Euclidean (non-negative) reduction and compared byte for byte on every transfer (x_c > v and x_c >= N are steered classes); the PKCS#1 block type 1 pad / SetBytes / Bytes / left-pad / parse round trip is proved for the byte-level model (C06_rsa_pkcs1_roundtrip) and stays a hypothesis only in the abstract-framing theorem C06_rsa_delivers",
+        "RSA: the private exponent of a key the code generated itself is read through reflection from the unexported fields ot.RSA.priv / ot.Sender.key (and injected keys are written there and into ot.RSA.pub): a tree that renames these fields breaks the harness run (reported as c06-rsa-harness), not the property",
+        "RSA over ot.Pipe: a zero-length SendData (v = 0, probability 1/N with honest randomness) is never answered by ot.Pipe.ReceiveData (io.Pipe Read on an empty slice waits for the peer's next write): steered RSA batches run over p2p.Conn; transports are C11's subject",
         "malicious mode: only honest runs are covered here (the consistency check itself is C15); its messages seed2/x/t0/t1 are not compared with a model",
         "packed-bit form: the correspondence and the oracle run on result buffers of every content (SendBits/ReceiveBits "
         "write each of their n bits since 8f72c8a; C06_iknp_bits_dirty); bits at positions >= n are required to stay as "
@@ -197,9 +301,16 @@ def run(ctx):
         "every content of both result slices: every position < n correct, positions >= n unchanged, "
         "C06_iknp_bits_dirty, the pre-8f72c8a OR-only store kept as BitStore.orOnly with its negation witness); packed-bit form r_j = s_j xor (Delta.Bit(0) and c_j) for every n "
         "(the pre-564d319 word count is kept as receiveBitsOld with its negation theorem); COT/ROT deliver for every batch size and every MITCCRH cipher; CO masks agree and the HEAD helpers deliver in every commutative group, COT over IKNP over CO base OTs (roles reversed) delivers (C06_iknp_over_co); "
-        "RSA OT recovers the blinding key. Tie: real IKNP sender/receiver, COT, ROT, MITCCRH run with "
+        "RSA OT recovers the blinding key; as the code computes it - transfer messages pad(m_c) + k_c summed and subtracted "
+        "over the INTEGERS, never reduced: the receiver unpads exactly pad(m_b) for EVERY k < N and every x0, x1 "
+        "(C06_rsa_received_integer), the PKCS#1 framing round-trips through SetBytes/Bytes (C06_rsa_pkcs1_roundtrip), every "
+        "transfer and every batch delivers at byte level for every randomness (C06_rsa_delivers_bytes, "
+        "C06_rsa_session_delivers), the executed square-and-multiply model is the specification (C06_rsa_powmod, "
+        "C06_rsa_exec_is_spec); the variant whose sender reduces mod N is shown to hand the receiver pad(m_b) - N < 0 whenever "
+        "pad(m_b) + k >= N (C06_rsa_modn_sender_negative, byte-level witness at an 89-bit modulus). Tie: real IKNP sender/receiver, COT, ROT, MITCCRH run with "
         "deterministic tapes, u-matrix bytes / label vectors / packed words / ciphertexts compared byte for byte with "
         "the compiled Lean model (Lean AES-CTR/AES); real ot.CO over p2p.Conn vs the same CO model instantiated with "
         "Lean P-256 + SHA-256: every byte both parties write (curve name, A, B_i, e0/e1 frames) and the receiver's "
-        "labels. Oracle: receiver's result = sender's label selected by the choice "
+        "labels; real ot.RSA / ot.Sender / ot.Receiver with both random sources on harness tapes vs Model/RsaOtBytes.lean: v, "
+        "m0', m1' and the outcome of every transfer. Oracle: receiver's result = sender's label selected by the choice "
         "at every position for all five implementations, both adversary modes, shared/non-shared, repeated batches.")
